@@ -9,7 +9,8 @@ Loss moments: lam.gamma(h) = sum_g lam_g mean_g(loss) = (1/n) sum_i (lam_{g(i)}/
 from __future__ import annotations
 
 from ..terms import NONE, T, const, const_value, contains, glob, mk, show, subterms
-from .common import M_BGL, M_ER, M_GS, M_LAG, M_UP, Analysis, arg, calls_to, is_str_const, kw, label_strips, stores_attr
+from .common import (M_BGL, M_ER, M_GS, M_LAG, M_UP, Analysis, arg, calls_to, inplace_updates_of_foreign_values, is_str_const, kw,
+                     label_strips, stores_attr)
 
 SPEC_FUNCS = {"relu": glob("spec.relu"), "np": glob("numpy"), "pd": glob("pandas")}
 
@@ -21,6 +22,7 @@ def check(ctx):
     ctx.guard(r073_gridsearch, ctx)
     ctx.guard(r074, ctx)
     ctx.guard(r075, ctx)
+    ctx.guard(r076_no_foreign_updates, ctx, "R07.6")
 
 
 def r071(ctx):
@@ -270,3 +272,51 @@ def r075(ctx):
                    f"{cls.split(':')[1]}.{m} strips the labels of lambda_vec ({show(hits[0], maxdepth=3)[:80]}) and uses the values by position",
                    construct=f"{cls.split(':')[1]}.{m} consumes lambda by label")
     ctx.floor("R07.5", "signed_weights / project_lambda methods", n, 6)
+
+
+def r076_no_foreign_updates(ctx, rule):
+    ctx.rule(rule, "gamma / signed_weights / project_lambda never update in place a value they did not create: the predictor's "
+                   "output (np.asarray of a float array is the same buffer), the caller's multiplier vector, or data stored by "
+                   "load_data - otherwise a second evaluation with the same predictor / multipliers gives another value")
+    A = Analysis(ctx)
+    n = 0
+    for cls in (M_UP + ":UtilityParity", M_ER + ":ErrorRate", M_BGL + ":ConditionalLossMoment"):
+        for m in ("gamma", "signed_weights", "project_lambda"):
+            fi = ctx.prog.lookup_method(cls, m)
+            if fi is None:
+                continue
+            r = A.run(fi.fq, cls_ctx=cls)
+            n += 1
+            params = set(r.params.values()) - {r.self_term}
+
+            def root(x, r=r, params=params):
+                if x in params:
+                    return True
+                if x.op == "call" and x.args[0] in params:      # predictor(self.X)
+                    return True
+                if x.op == "attr" and x.args[0] is r.self_term:  # stored data (self.utilities, self.U ...)
+                    return True
+                if x.op == "sub" and x.args[0].op == "attr" and x.args[0].args[0] is r.self_term and x.args[1].op != "slice":
+                    return False
+                return False
+            hits = [(e, d) for e, d in inplace_updates_of_foreign_values(r, root)
+                    if not (e.data.get("tkind") == "sub" and e.data["obj"].op == "attr" and e.data["obj"].args[0] is r.self_term
+                            and e.data["obj"].args[1] in ("tags",))]
+            # gamma of the loss moments writes its own scratch columns into self.tags (documented scratch frame): not foreign
+            hits = [(e, d) for e, d in hits if not (root_is_tags(e, r))]
+            ok = not hits
+            ctx.ob(rule, fi.fq, hits[0][0].node if hits else None, ok, f"{cls.split(':')[1]}.{m} updates only values it created" if ok else
+                   f"{cls.split(':')[1]}.{m} applies an in-place {hits[0][1]} to a value that can be the caller's own array (no copy)",
+                   construct=f"{cls.split(':')[1]}.{m} no foreign update")
+    ctx.floor(rule, "moment query methods", n, 8)
+
+
+def root_is_tags(e, r):
+    from ..terms import root_of
+    o = e.data.get("obj")
+    if o is None:
+        return False
+    ro = root_of(o)
+    while ro.op in ("upd", "loopvar"):
+        ro = ro.args[0] if ro.op == "upd" else ro.args[2]
+    return ro.op == "attr" and ro.args[0] is r.self_term and ro.args[1] == "tags"
